@@ -34,6 +34,7 @@ type cyOpts struct {
 	MaxShard    int32 `json:"maxShard"`
 	MaxIdle     int   `json:"maxIdle"`
 	NoAlleviate bool  `json:"noAlleviate"`
+	Static      bool  `json:"static,omitempty"` // closed loop only: the shards are a fixed list (pkg/shard/static), scale requests change nothing
 }
 
 type cyEntry struct {
